@@ -241,7 +241,7 @@ def body(case, stats):
 
 def classify(bad, rid):
     kf = runner.known_findings()
-    if kf.is_open('N1', ID) and 'with same name as class' in bad[0]:
+    if kf.is_open('N1', ID) and ('with same name as class' in bad[0] or 'changes meaning of' in bad[0]):
         return 'N1'
     return None
 
@@ -270,10 +270,11 @@ def regress(stats):
 def n1_reproduction(stats):
     if not runner.known_findings().is_open('N1', ID):
         return
-    text = 'struct id\n{\n    bytes id<>;\n};\n'
-    bad = check_text('valid', None, Schema([]), text)
-    if bad and classify(bad, None) == 'N1':
-        stats.known_finding('N1', {'text': text})
+    for text in ('struct id\n{\n    bytes id<>;\n};\n',
+                 'union U1\n{\n    0: u8 a;\n    1: u8 b;\n};\nstruct S2\n{\n    U1 a;\n    U1 U1;\n};\n'):
+        bad = check_text('valid', None, Schema([]), text)
+        if bad and classify(bad, None) == 'N1':
+            stats.known_finding('N1', {'text': text})
 
 
 def run(tier, seed):
